@@ -17,6 +17,12 @@ def peersync(mode, nq, nt, pq=4, pt=12, extra=None):
     return {"name": "peersync-" + mode, "driver": "peersync", "args": ["mode=" + mode] + (extra or []),
             "n": {"quick": nq, "thorough": nt}, "procs": {"quick": pq, "thorough": pt}}
 
+def replay(nq, nt, pq=2, pt=6):
+    """specification -> implementation: behaviours of MC_PeerSyncR (tlc -simulate) executed on the real client"""
+    return {"name": "peersync-replay", "driver": "peersync", "args": ["mode=replay"], "trace_module": "Trace_PeerSync",
+            "gen": {"module": "MC_PeerSyncR", "cfg": "MC_PeerSyncR.cfg", "num": {"quick": 300, "thorough": 3000}, "depth": 40},
+            "n": {"quick": nq, "thorough": nt}, "procs": {"quick": pq, "thorough": pt}}
+
 def fsync(mode, nq, nt, pq=2, pt=8, extra=None):
     return {"name": "filtersync-" + mode, "driver": "filtersync", "args": ["mode=" + mode] + (extra or []),
             "trace_module": "Trace_FilterSync",
@@ -202,7 +208,7 @@ CHECKS = {
     "C01": {
         "trace_module": "Trace_PeerSync",
         "mc": [MC_PEERSYNC],
-        "drivers": [peersync("mut", 60, 500, 3, 10, ["maxmut=60"]), peersync("adv", 150, 1000, 1, 3), peersync("honest", 30, 150, 1, 3)],
+        "drivers": [peersync("mut", 60, 500, 3, 10, ["maxmut=60"]), peersync("adv", 150, 1000, 1, 3), peersync("honest", 30, 150, 1, 3), replay(200, 2000, 2, 6)],
         "assumptions": COMMON_ASSUMPTIONS + [
             "mutations are constructed to be definitely incorrect answers (DESIGN.md 4 C01); the violated attribute is set by construction",
             "'byte-for-byte unchanged' is checked on the projected trusted state (peer prove states, LAST_STATE, LAST_N_HEADERS) read back from the real objects/RocksDB",
@@ -220,13 +226,13 @@ CHECKS = {
     "C11": {
         "trace_module": "Trace_PeerSync",
         "mc": [MC_PEERSYNC],
-        "drivers": [peersync("honest", 40, 300, 3, 8), peersync("tip", 60, 400, 1, 4)],
+        "drivers": [peersync("honest", 40, 300, 3, 8), peersync("tip", 60, 400, 1, 4), replay(300, 3000, 3, 8)],
         "assumptions": COMMON_ASSUMPTIONS,
     },
     "C12": {
         "trace_module": "Trace_PeerSync",
         "mc": [MC_PEERSYNC, MC_PEERSYNC_SHORT],
-        "drivers": [peersync("tip", 120, 800, 2, 8), peersync("tipeq", 60, 400, 1, 4), peersync("honest", 30, 200, 2, 4), peersync("adv", 150, 1000, 1, 3)],
+        "drivers": [peersync("tip", 120, 800, 2, 8), peersync("tipeq", 60, 400, 1, 4), peersync("honest", 30, 200, 2, 4), peersync("adv", 150, 1000, 1, 3), replay(200, 2000, 2, 6)],
         "assumptions": COMMON_ASSUMPTIONS,
     },
 }
